@@ -215,13 +215,14 @@ def run(ctx):
                 r1d.ok(key, "= Some(now)", loc(a["sp"]))
             else:
                 r1d.violation(key, "first due time is %s, expected Some(now)" % show(a["value"], 60), loc(a["sp"]))
-    tk = prog.fn(TI + "::tick")
+    tk = prog.fn(TI + "::tick", host_ok=True)    # (or the function it was folded into: the rule looks for the checked_add inside)
     ctx.analysed(tk.path)
     tks = Slicer(tk.body)
     adds = call_sites(tk, lambda p, c: re.search(r"SystemTime::(checked_add|add)$", p) is not None)
     for s in adds:
         key = "TransferInfo::tick step"
-        if show(tks.expand(s.expr[2][1])) == "self.packet_transmission_tick@Some.0":
+        # (`self.` inside TransferInfo::tick; `info.` - the write guard of the same struct - when tick was folded into FileDesc::inc_next_…)
+        if re.search(r"^(self|RwLockWriteGuard::deref(_mut)?\(&\w+\))\.packet_transmission_tick@Some\.0$", show(tks.expand(s.expr[2][1]))):
             r1d.ok(key, show(s.expr, 80), s.loc)
         else:
             r1d.violation(key, "tick() advances by %s" % show(s.expr[2][1], 60), s.loc)
@@ -263,7 +264,12 @@ def run(ctx):
                   "WWF+WMC+DOM")
     allowed = {"last_transfer_start_time": {TI + "::init": "Option::Some{0: now}", FD + "::reset_last_transfer": "Option::None{}"},
                "last_transfer_end_time": {TI + "::done": "Option::Some{0: now}", FD + "::reset_last_transfer": "Option::None{}"}}
+    # a writer that was folded into its only caller keeps its role under the caller's name (Program.folded)
+    HOST = {host_: f_ for f_, host_ in prog.folded().items()}
     for fld, tab in sorted(allowed.items()):
+        for k_ in list(tab):
+            if prog.folded().get(k_):
+                tab[prog.folded()[k_]] = tab[k_]
         for a in field_accesses(prog, TI, fld):
             if a["kind"] not in ("assign", "assign_sub", "borrow_mut"):
                 continue
@@ -299,6 +305,9 @@ def run(ctx):
         caller = a["func"].root().path
         key = "%s writes TransferInfo.transferring" % "::".join(caller.split("::")[-2:])
         want = {TI + "::init": "True", TI + "::done": "False"}
+        for k_ in list(want):
+            if prog.folded().get(k_):
+                want[prog.folded()[k_]] = want[k_]
         if want.get(caller) == show(a["value"]):
             r3.ok(key, "= %s" % show(a["value"]), loc(a["sp"]))
         else:
